@@ -308,7 +308,7 @@ def rv_str(r, fn=None):
     return "<%s %s>" % (k, r.get("dbg", ""))
 
 
-def term_str(t, fn=None):
+def terminator_str(t, fn=None):
     k = t["k"]
     if k == "goto":
         return "goto bb%d" % t["t"]
@@ -346,7 +346,7 @@ def fn_str(fn):
                 out.append("      discriminant(%s) = %d" % (place_str(s["p"], fn), s["v"]))
             else:
                 out.append("      <%s>" % s["k"])
-        out.append("      %s   // L%d" % (term_str(b["term"], fn), b["term"].get("ln", 0)))
+        out.append("      %s   // L%d" % (terminator_str(b["term"], fn), b["term"].get("ln", 0)))
     return "\n".join(out)
 
 
@@ -381,11 +381,91 @@ if __name__ == "__main__":
 
 
 class Terms:
-    def __init__(self, fn, max_depth=40):
+    def __init__(self, fn, max_depth=40, blocks=None):
+        """blocks: if given, only definitions located in these blocks are considered (used
+        together with Explore to evaluate terms under a finite-domain assumption)"""
         self.fn = fn
         self.memo = {}
         self.stack = set()
         self.max_depth = max_depth
+        self.blocks = set(blocks) if blocks is not None else None
+
+    def _defs(self, l):
+        d = self.fn.defs().get(l, [])
+        if self.blocks is not None:
+            d = [x for x in d if x[0] in self.blocks]
+        return d
+
+    def origin_local(self, o, depth=0):
+        """follow plain copies/moves back to the local a value was taken from"""
+        if o["k"] not in ("copy", "move") or o["p"]["proj"]:
+            return None
+        l = o["p"]["l"]
+        if depth > 20:
+            return l
+        d = [x for x in self._defs(l) if x[2]["k"] != "partial"]
+        if len(d) == 1 and d[0][2]["k"] == "use" and d[0][2]["op"]["k"] in ("copy", "move") and not d[0][2]["op"]["p"]["proj"] \
+                and not self.fn.locals[l].get("name"):
+            return self.origin_local(d[0][2]["op"], depth + 1)
+        return l
+
+    def addr(self, o, depth=0):
+        """the place a reference operand points to, as ("slot", root, path) where root is
+        ("param", i, name) / ("local", l, name) and path the tuple of field names; None if the
+        operand is not a (re)borrow chain of a place"""
+        if o["k"] not in ("copy", "move") or depth > 20:
+            return None
+        p = o["p"]
+        if p["proj"]:
+            return None
+        d = [x for x in self._defs(p["l"]) if x[2]["k"] != "partial"]
+        if 1 <= p["l"] <= self.fn.arg_count and not d:
+            # a reference parameter: the slot is whatever the caller passed
+            return ("slot", ("param", p["l"], self.fn.local_name(p["l"])), ("*",))
+        if len(d) != 1:
+            return None
+        r = d[0][2]
+        if r["k"] == "use":
+            return self.addr(r["op"], depth + 1)
+        if r["k"] == "cast":
+            return self.addr(r["op"], depth + 1)
+        if r["k"] not in ("ref", "rawptr"):
+            return None
+        return self.place_slot(r["p"], depth + 1)
+
+    def place_slot(self, pl, depth=0):
+        path = []
+        base = None
+        proj = list(pl["proj"])
+        l = pl["l"]
+        if proj and proj[0]["k"] == "deref":
+            inner = self.addr({"k": "copy", "p": {"l": l, "proj": []}}, depth + 1)
+            if inner is None:
+                return None
+            base = inner[1]
+            path = [x for x in inner[2] if x != "*"] if inner[2] != ("*",) else ["*"]
+            if inner[2] == ("*",):
+                path = ["*"]
+            proj = proj[1:]
+        else:
+            if 1 <= l <= self.fn.arg_count:
+                base = ("param", l, self.fn.local_name(l))
+            else:
+                base = ("local", l, self.fn.local_name(l))
+        for e in proj:
+            if e["k"] == "field":
+                path.append(e["name"])
+            elif e["k"] == "downcast":
+                path.append("as " + e["name"])
+            elif e["k"] == "deref":
+                path.append("*")
+            elif e["k"] == "cidx":
+                path.append("[%d]" % e["off"])
+            elif e["k"] == "index":
+                path.append("[_]")
+            else:
+                path.append("<%s>" % e["k"])
+        return ("slot", base, tuple(path))
 
     def local(self, l, depth=0):
         if l in self.memo:
@@ -398,7 +478,7 @@ class Terms:
             alts = []
             if 1 <= l <= fn.arg_count:
                 alts.append(("param", l, fn.locals[l].get("name") or "_%d" % l))
-            for (bb, si, r) in fn.defs().get(l, []):
+            for (bb, si, r) in self._defs(l):
                 if r["k"] == "partial":
                     continue
                 if r["k"] == "call":
@@ -797,6 +877,20 @@ class Explore:
         t = self.terms.operand(op)
         return self.assume.get(t)
 
+    def _agg_vidx(self, op, depth=0):
+        """variant index of a fieldless enum value moved through temporaries"""
+        if op["k"] not in ("copy", "move") or op["p"]["proj"] or depth > 8:
+            return None
+        d = [x for x in self.fn.defs().get(op["p"]["l"], []) if x[2]["k"] != "partial"]
+        if len(d) != 1:
+            return None
+        r = d[0][2]
+        if r["k"] == "agg" and r["kind"] == "adt" and not r["ops"]:
+            return r["vidx"]
+        if r["k"] == "use":
+            return self._agg_vidx(r["op"], depth + 1)
+        return None
+
     def _step_state(self, bb, state):
         st = dict(state)
         for s in self.fn.blocks[bb]["stmts"]:
@@ -811,6 +905,8 @@ class Explore:
                 v = r["vidx"]
             elif r["k"] == "use":
                 v = self._value_of(r["op"], tuple(st.items()))
+                if v is None:
+                    v = self._agg_vidx(r["op"])
             st[l] = v
         t = self.fn.blocks[bb]["term"]
         if t["k"] == "call" and not t["dest"]["proj"] and t["dest"]["l"] in st:
